@@ -319,6 +319,9 @@ func runChild() {
 	case "mix":
 		c.prefix = "mix_"
 		runMix(p, c, base)
+	case "promo":
+		c.prefix = "promo_"
+		runPromo(p, c, base)
 	default:
 		fmt.Println("unknown part kind", p.Kind)
 		os.Exit(2)
@@ -371,8 +374,20 @@ func descJSON(d gcnasm.Desc) any {
 }
 
 // probeRow decides whether the decoder has a table row for opcode op of
-// format f (VOP3a = the 10-bit VOP3 space) and, if so, names it and derives the
-// operand widths from the manuals' mnemonic.
+// format f (VOP3a = the 10-bit VOP3 space) and, if so, names it, looks up the
+// mnemonic the manuals of c.arch give that opcode (manualName) and derives the
+// operand widths from the manuals' mnemonic - never from the decoder's.
+//
+// Judged says where the expectation comes from:
+//
+//	manual      the manuals of c.arch name the opcode; the decoder must report
+//	            that mnemonic (or a documented rename, nameAliases) and the
+//	            widths it implies
+//	other-arch  the manuals of c.arch have no such opcode, the other
+//	            architecture's have and the decoder (one table for both) reports
+//	            that instruction: judged by the other manual's widths, listed
+//	none        neither manual names what the decoder reports: round trip of
+//	            fields only, no name / width expectation; counted and listed
 func probeRow(c *ctx, f gcnasm.Format, op int, count bool) (row, bool) {
 	out := c.out
 	ff := f
@@ -382,7 +397,7 @@ func probeRow(c *ctx, f gcnasm.Format, op int, count bool) (row, bool) {
 	r := row{Arch: c.arch, Format: ff, Opcode: op}
 	probe, err := gcnasm.Encode(r.base())
 	if err != nil {
-		out.rec.Inconclusive(fmt.Sprintf("encoder rejected probe for %s: %v", r.id(), err))
+		out.inconclusive(fmt.Sprintf("encoder rejected probe for %s: %v", r.id(), err))
 		return r, false
 	}
 	if got := formatOf(binary.LittleEndian.Uint32(probe)); got != formatNameOf(ff) && !(got == "vop3" && (ff == gcnasm.VOP3a || ff == gcnasm.VOP3b)) && !(got == "vop3p" && ff == gcnasm.VOP3P) {
@@ -393,43 +408,78 @@ func probeRow(c *ctx, f gcnasm.Format, op int, count bool) (row, bool) {
 	}
 	c.before(probe, "probe "+r.id())
 	po := safeDecode(c.dA, probe)
+	r.ManName, r.ManSource = manualName(c.arch, ff, op)
 	if po.Kind == kError && notFoundRE.MatchString(po.Msg) {
 		if count {
 			out.count("rt_opcodes_without_row", 1)
+			if r.ManName != "" {
+				// the manual defines it, the simulator does not support it: not a
+				// C04 matter (supported instruction = row of the decoder), but visible
+				out.count("rt_manual_opcodes_without_row", 1)
+				out.note("manual_opcodes_without_row", fmt.Sprintf("%s %s", r.id(), r.ManName))
+			}
 		}
 		return r, false
 	}
 	if po.Kind == kInst {
 		r.DecName = po.Inst.InstName
 	}
-	names := gcnasm.NamesOf(ff, op)
-	dn := gcnasm.NormName(r.DecName)
+	dn := normDec(r.DecName)
+	otherName, _ := manualName(otherArch(c.arch), ff, op)
 	switch {
-	case dn != "" && dn == names.GCN3, dn != "" && dn == names.CDNA3:
-		r.IsaName = dn
-	case dn == "":
-		r.IsaName = gcnasm.NameOf(c.arch, ff, op)
-		r.DecName = r.IsaName
+	case r.ManName != "":
+		r.Judged, r.RefName = "manual", r.ManName
+	case otherName != "" && (dn == "" || dn == otherName || aliasOK(otherArch(c.arch), ff, op, dn, otherName)):
+		r.Judged, r.RefName = "other-arch", otherName
+	default:
+		r.Judged, r.RefName = "none", dn
 	}
-	if c.arch == gcnasm.CDNA3 && ff == gcnasm.VOP1 && op == 56 && names.CDNA3 != "" {
-		// the shared decode table names the row after GCN3's v_movrelsd_b32; GFX9 defines v_mov_b64 here
-		r.IsaName = names.CDNA3
+	if dn == "" {
+		// the probe did not decode to an instruction (fault / diagnostic, reported
+		// by the round trip itself): members are named after the reference
+		r.DecName = r.RefName
 	}
-	if r.IsaName != "" {
-		r.W = gcnasm.WidthsOf(ff, op, r.IsaName)
+	if r.Judged != "none" {
+		r.W = gcnasm.WidthsOf(ff, op, r.RefName)
 	}
 	if !count {
 		return r, true
 	}
 	out.count("rt_rows", 1)
 	out.count("rt_rows_"+ff.String(), 1)
-	if r.IsaName == "" {
-		out.count("rt_rows_name_mismatch", 1)
-		out.dist("name_mismatch", fmt.Sprintf("%s/%d dec=%s gcn3=%s cdna3=%s", ff, op, dn, names.GCN3, names.CDNA3))
-	} else if !r.W.Known {
-		out.count("rt_rows_widths_not_modelled", 1)
-	} else {
-		out.count("rt_rows_width_checked", 1)
+	out.count("rt_rows_judged_by_"+r.Judged, 1)
+	if po.Kind == kInst && strings.TrimSpace(r.DecName) != r.DecName {
+		out.note("decoder_mnemonics_with_blanks", fmt.Sprintf("%s %q", r.id(), r.DecName)) // compared without them
+	}
+	switch {
+	case r.Judged == "none":
+		out.count("rt_rows_not_judged", 1)
+		out.note("not_judged", fmt.Sprintf("%s dec=%s: no opcode-table entry in either manual%s", r.id(), dn, map[bool]string{true: " (the other manual names it " + otherName + ")", false: ""}[otherName != ""]))
+	case r.Judged == "other-arch":
+		out.note("judged_by_other_arch", fmt.Sprintf("%s dec=%s", r.id(), dn))
+		fallthrough
+	default:
+		if !r.W.Known {
+			out.count("rt_rows_widths_not_modelled", 1)
+			out.note("widths_not_modelled", fmt.Sprintf("%s %s", r.id(), r.RefName))
+		} else {
+			out.count("rt_rows_width_checked", 1)
+		}
+	}
+	// the mnemonic itself
+	if r.Judged == "manual" && po.Kind == kInst {
+		out.count("rt_names_compared", 1)
+		switch {
+		case dn == r.ManName:
+			out.count("rt_names_equal_manual", 1)
+		case aliasOK(c.arch, ff, op, dn, r.ManName):
+			out.count("rt_names_documented_rename", 1)
+		default:
+			out.class(fmt.Sprintf("C04|roundtrip|%s|name-differs-from-manual|%s|%d", ff, c.arch, op), dn+"-for-"+r.ManName, true,
+				fmt.Sprintf("%s decoder: %s opcode %d decodes as %q; the %s names it %q", c.arch, ff, op, dn, r.ManSource, r.ManName),
+				map[string]any{"arch": c.arch.String(), "row": r.id(), "bytes": hx(probe), "decoded_name": r.DecName, "manual_name": r.ManName,
+					"manual_source": r.ManSource, "other_arch_manual_name": otherName, "decoded_row_widths": snapInst(po.Inst).RowWidths, "manual_widths": r.W})
+		}
 	}
 	return r, true
 }
@@ -561,7 +611,7 @@ func runRT(p part, c *ctx, base *vlib.PRNG) {
 			}
 			switch o.Kind {
 			case kInst:
-				diffs := diffExpect(snap, expectFor(pt.D, r.W, r.DecName))
+				diffs := diffExpect(snap, expectFor(pt.D, r.W, r.ref()))
 				out.count("rt_fields_compared", 60)
 				for _, df := range diffs {
 					if df.Field == "format" {
